@@ -180,7 +180,7 @@ pub fn run_case(tier: &str, seed: u64, idx: u64) -> CaseOut {
     let mut rng = Rng::new(mix(&[seed, idx], "c01"));
     let n_ops = if tier == "quick" { 300 } else { rng.range(300, 2000) as usize };
     // every 8th history keeps one WAL and one manifest alive across many reopens
-    let params = if idx % 8 == 5 { HistoryParams::long_wal(&mut rng, if tier == "quick" { 6000 } else { 12000 }) } else { HistoryParams::generate(&mut rng, idx, n_ops) };
+    let params = if idx % 8 == 5 { HistoryParams::long_wal(&mut rng, if tier == "quick" { 2500 } else { 6000 }) } else { HistoryParams::generate(&mut rng, idx, n_ops) };
     let mut oracle = GetOracle { prop: "C01", verified: 0 };
     let outcome = history::run(&mut out, &mut rng, &params, &mut oracle);
     let flushes = out.obs.get("note.version.install").copied().unwrap_or(0);
